@@ -80,7 +80,12 @@ func (s *sched) runnable() []int {
 
 func ndPar(fr *frame, args []value) value {
 	i := fr.i
-	s := &sched{i: i, back: make(chan int), maxSwitches: 2, owner: map[*value]int{}}
+	i.x.usedPar = true
+	maxSw := 2
+	if v, ok := i.params["preemptions"]; ok {
+		maxSw = v
+	}
+	s := &sched{i: i, back: make(chan int), maxSwitches: maxSw, owner: map[*value]int{}}
 	i.sched = s
 	defer func() { i.sched = nil }()
 	for k := 0; k < 2; k++ {
